@@ -66,7 +66,7 @@ theorem lstep_inv {kinds g lr} (op : LOp) (h : LInv kinds g lr) :
   cases op with
   | api o =>
     obtain ⟨h1, h2⟩ := LemmasLP.step_inv o h.inv
-    simp only [lstep, lcheckStep]
+    simp only [lstep, lcheckStep, landStepL]
     refine ⟨⟨h1, ?_⟩, h2⟩
     intro i hi hk
     have hsh : g.st.stopped = lr.ref.shut := h.inv.shut
@@ -89,7 +89,7 @@ theorem lstep_inv {kinds g lr} (op : LOp) (h : LInv kinds g lr) :
       Nat.le_trans (Nat.min_le_left _ _) (Nat.min_le_right _ _)
     have hc : ∀ i, i < kinds.length → _ := fun i hi =>
       comp_land _ _ _ _ (landed g l i) (h.inv.comp i hi) (hm i)
-    simp only [lstep, lcheckStep]
+    simp only [lstep, lcheckStep, landStepL]
     refine ⟨⟨⟨h.inv.n, h.inv.shut, h.inv.lg, fun i hi => (hc i hi).1⟩, ?_⟩, ?_⟩
     · intro i hi hk
       obtain ⟨a1, a2⟩ := h.att i hi hk
@@ -114,6 +114,45 @@ theorem lstep_inv {kinds g lr} (op : LOp) (h : LInv kinds g lr) :
       · intro i hi
         obtain ⟨_, c1, c2, c3, c4, c5, c6⟩ := hc i hi
         simp [snapOf, c3]
+      · intro i hi
+        obtain ⟨_, c1, c2, c3, c4, c5, c6⟩ := hc i hi
+        simp [snapOf, c4]
+  | settle l =>
+    have hm : ∀ i, landed g l i ≤ (g.st.pool i).queued := fun i => Nat.min_le_right _ _
+    have hma : ∀ i, landed g l i ≤ g.att i := fun i =>
+      Nat.le_trans (Nat.min_le_left _ _) (Nat.min_le_right _ _)
+    have hc : ∀ i, i < kinds.length → _ := fun i hi =>
+      comp_land _ _ _ _ (landed g l i) (h.inv.comp i hi) (hm i)
+    simp only [lstep, lcheckStep, landStepL]
+    refine ⟨⟨⟨h.inv.n, h.inv.shut, h.inv.lg, fun i hi => (hc i hi).1⟩, ?_⟩, ?_⟩
+    · intro i hi hk
+      obtain ⟨a1, a2⟩ := h.att i hi hk
+      obtain ⟨_, _, _, _, _, c5, c6⟩ := hc i hi
+      simp only [hk, ↓reduceIte] at c5 c6
+      show (landProc (landed g l i) (g.st.pool i)).cnt.n + (g.att i - landed g l i) ≤ lr.hand i ∧
+        g.att i - landed g l i ≤ (landProc (landed g l i) (g.st.pool i)).queued
+      rw [c5, c6]
+      have := hma i; have := hm i
+      omega
+    · simp only [Spec.Fails.none, Spec.Fails.mk.injEq, Bool.not_eq_false', Spec.allBelow, List.all_eq_true,
+        Bool.and_eq_true, List.mem_range]
+      refine ⟨?_, ?_, ⟨by decide, ?_⟩, by decide⟩
+      · intro i hi
+        obtain ⟨_, c1, c2, c3, c4, c5, c6⟩ := hc i hi
+        simp only [snapOf]
+        refine ⟨⟨by simp [c1], by simp [c2]⟩, ?_⟩
+        cases hk : kindOf kinds i <;> simp only [hk] at c5 <;> simp [c5]
+        obtain ⟨a1, a2⟩ := h.att i hi hk
+        have := hma i
+        omega
+      · intro i hi
+        obtain ⟨c0, c1, c2, c3, c4, c5, c6⟩ := hc i hi
+        show (match kindOf kinds i with
+          | .recd | .simpleRec | .batchRec =>
+            (landProc (landed g l i) (g.st.pool i)).cnt.s == (if lr.ref.shut then 1 else 0)
+          | _ => (landProc (landed g l i) (g.st.pool i)).cnt.s == 0) = true
+        revert c0
+        cases hk : kindOf kinds i <;> simp only [LemmasLP.CompInv] <;> intro c0 <;> simp_all
       · intro i hi
         obtain ⟨_, c1, c2, c3, c4, c5, c6⟩ := hc i hi
         simp [snapOf, c4]
@@ -236,7 +275,7 @@ theorem mstep_inv {kinds g mr} (op : MOp) (h : MInv kinds g mr) :
   | land l =>
     have hc : ∀ i, i < kinds.length → _ := fun i hi =>
       comp_landR _ _ _ (min (l i) (g.pend i)) (h.inv.comp i hi)
-    simp only [mstep, mcheckStep]
+    simp only [mstep, mcheckStep, landStepM]
     refine ⟨⟨⟨h.inv.n, h.inv.shut, h.inv.once, h.inv.mt, h.inv.tot, fun i hi => (hc i hi).1⟩, ?_⟩, ?_⟩
     · intro i hi hk
       obtain ⟨p1, p2⟩ := h.pend i hi hk
@@ -264,6 +303,44 @@ theorem mstep_inv {kinds g mr} (op : MOp) (h : MInv kinds g mr) :
       · intro i hi
         obtain ⟨_, c1, c2, c3, c4, c5⟩ := hc i hi
         simp [snapOf, c3]
+      · intro i hi
+        obtain ⟨_, c1, c2, c3, c4, c5⟩ := hc i hi
+        simp [snapOf, c4]
+  | settle l =>
+    have hc : ∀ i, i < kinds.length → _ := fun i hi =>
+      comp_landR _ _ _ (min (l i) (g.pend i)) (h.inv.comp i hi)
+    simp only [mstep, mcheckStep, landStepM]
+    refine ⟨⟨⟨h.inv.n, h.inv.shut, h.inv.once, h.inv.mt, h.inv.tot, fun i hi => (hc i hi).1⟩, ?_⟩, ?_⟩
+    · intro i hi hk
+      obtain ⟨p1, p2⟩ := h.pend i hi hk
+      obtain ⟨_, _, _, _, _, c5⟩ := hc i hi
+      simp only [hk, ↓reduceIte] at c5
+      show (landR (min (l i) (g.pend i)) (g.st.pool i)).cnt.n + (g.pend i - min (l i) (g.pend i)) ≤ mr.cap ∧
+        (mr.ref.shut = true → g.pend i - min (l i) (g.pend i) = 0)
+      rw [c5]
+      have := Nat.min_le_right (l i) (g.pend i)
+      exact ⟨by omega, fun hs => by rw [p2 hs]; simp⟩
+    · simp only [Spec.Fails.none, Spec.Fails.mk.injEq, Bool.not_eq_false', Spec.allBelow, List.all_eq_true,
+        Bool.and_eq_true, List.mem_range]
+      refine ⟨?_, ?_, ⟨by decide, ?_⟩, by decide⟩
+      · intro i hi
+        obtain ⟨_, c1, c2, c3, c4, c5⟩ := hc i hi
+        simp only [snapOf]
+        refine ⟨⟨by simp [c1], by simp [c2]⟩, ?_⟩
+        cases hk : kindOf kinds i <;> simp only [hk] at c5 <;> simp [c5]
+        obtain ⟨p1, p2⟩ := h.pend i hi hk
+        have := Nat.min_le_right (l i) (g.pend i)
+        refine ⟨by omega, ?_⟩
+        cases hs : mr.ref.shut with
+        | false => simp
+        | true => simp [p2 hs]
+      · intro i hi
+        obtain ⟨c0, c1, c2, c3, c4, c5⟩ := hc i hi
+        show (match kindOf kinds i with
+          | .periodic => (landR (min (l i) (g.pend i)) (g.st.pool i)).cnt.s == (if mr.ref.shut then 1 else 0)
+          | .manual => (landR (min (l i) (g.pend i)) (g.st.pool i)).cnt.s == 0) = true
+        revert c0
+        cases hk : kindOf kinds i <;> simp only [LemmasMP.CompInv] <;> intro c0 <;> simp_all
       · intro i hi
         obtain ⟨_, c1, c2, c3, c4, c5⟩ := hc i hi
         simp [snapOf, c4]
